@@ -10,7 +10,7 @@ namespace Driver.P20
 answers what each read-only command would show and do *if issued at that point* --
 `decision` (per task, `Intro.decision`), per list (print order) `shown` (`Intro.listRun`), `removes`
 (`Intro.listRemoves`), `db` (after `Cmd.exec`); per info task `shown` (`Intro.infoShown`), `reasons`
-(`Intro.infoReasons`), `removes`, `db`, `ambiguous`.
+(`Intro.infoPrinted`), `removes`, `db`, `ambiguous`.
 
 `{"model":"c20","mode":"monitor","checks":[check…]}` evaluates the clauses of the property statement on what the
 implementation was seen to do: `{"kind":"frame","ntasks":n,"before":[fp|null…],"after":[fp|null…],"ck":[bool…]}`
@@ -74,7 +74,7 @@ def probeJ (ntasks npaths : Nat) (s : St) (spec : Json) : Json :=
     ("infos", mkArr (infos.map fun t =>
       let cmd := Cmd.info t false
       Json.mkObj [("t", toJson t), ("shown", Json.str (shownStr (infoShown s t))),
-                  ("reasons", reasonsJ (infoReasons s t)),
+                  ("reasons", reasonsJ (infoPrinted s t)),
                   ("removes", ofNats (cmd.removes s)),
                   ("ambiguous", Json.bool (Driver.Status.ambiguousAt s t)),
                   ("db", dbJ ntasks npaths (cmd.exec s))])),
